@@ -3,3 +3,11 @@
 
 def check_modes_dispatch(ctx):
     return
+
+
+def check_modes_failures(ctx):
+    return
+
+
+def replay(ctx, payload):
+    raise NotImplementedError
